@@ -1,6 +1,7 @@
 (* C18 — Adam7 geometry is exact for every image size. Statements only. *)
 From OxiVerif Require Import Base.Common Spec.Adam7 Model.Types Model.Headers Model.ScanLines Model.Interlace
   Proofs.ScanProofs Proofs.InterlaceProofs Proofs.HeaderProofs Proofs.Adam7RoundTrip.
+From OxiVerif Require Import Spec.Sem Proofs.Bridge Proofs.LiftColor Proofs.LiftInterlace.
 
 (* The scan-line iterator emits exactly the pass sizes and row lengths the specification
    prescribes (empty passes omitted), for every width, height >= 1 and every pixel size >= 1 bit *)
@@ -68,6 +69,13 @@ Theorem C18_pixel_roundtrip : forall (A : Type) (rows : list (list A)) (w : nat)
   match nth_error rows (Z.to_nat y) with Some r => nth_error r (Z.to_nat x) | None => None end.
 Proof. exact @spec_pixel_at_interlace. Qed.
 Print Assumptions C18_pixel_roundtrip.
+
+(* WHOLE IMAGES, bytes in and bytes out: interlace_image (scan lines -> pixels -> pass rows -> packed, padded bytes) produces data
+   that the specification's Adam7 layout and de-interlacing read back as the same picture - every width, height, pixel size *)
+Theorem C18_interlace_image_meaning : forall img img' pic, wf img -> interlaced (hdr img) = false ->
+  interlace_image img = Ok img' -> sem img = Some pic -> sem img' = Some pic /\ wf img'.
+Proof. exact interlace_image_sem. Qed.
+Print Assumptions C18_interlace_image_meaning.
 
 (* non-vacuity *)
 Example C18_example : spec_lines 5 3 = [(1, 1); (2, 1); (4, 1); (5, 3); (6, 2); (6, 2); (7, 5)].
